@@ -608,6 +608,9 @@ func (k *Kit) OneRec(r *core.Rand, rec Rec, o RenderOpts, first, last bool) []by
 			if !last || li < len(ls)-1 || !o.NoFinalTerminator {
 				sb.WriteString(nl)
 			}
+			if o.BlankLines && li < len(ls)-1 && r.Chance(1, 4) {
+				sb.WriteString(nl) // an empty line between two rows of one record (skipped by the reader like any other)
+			}
 		}
 		sep()
 	case "fixed-length", "fixedlength2":
@@ -618,6 +621,9 @@ func (k *Kit) OneRec(r *core.Rand, rec Rec, o RenderOpts, first, last bool) []by
 				sb.WriteString(PadRunes(rw[j], k.Widths[j], ' '))
 			}
 			if !last || li < len(ls)-1 || !o.NoFinalTerminator {
+				sb.WriteString(nl)
+			}
+			if o.BlankLines && li < len(ls)-1 && r.Chance(1, 4) {
 				sb.WriteString(nl)
 			}
 		}
